@@ -23,12 +23,18 @@
 (*   EndPoint a scaled end-point carries the table's end-point value       *)
 (*   Scan     a scanning curve starts at the reversal point's value and is *)
 (*            monotone in the saturation                                   *)
+(*   Mono     a scaled curve is monotone in its saturation                 *)
+(* With vertical scaling EndPoint also says: the curve carries the cell's  *)
+(* KRW / KRO / KRG at its maximum end-point and KRWR / KRORW / KRGR at the *)
+(* critical saturation of the displacing phase.                            *)
 (***************************************************************************)
 EXTENDS Integers, Sequences, FiniteSets, TLC, Json
 Models == [family : {1, 2}, nodes : 3..5, regions : {1, 2}, scaling : {"none", "two", "three"}, arrays : BOOLEAN,
-           hyst : {"none", "same", "other"}]
-\* end-point arrays only make sense with scaling; different imbibition curves need a second region
-Valid(m) == (m.arrays => m.scaling # "none") /\ (m.hyst = "other" => m.regions = 2)
+           hyst : {"none", "same", "other"}, vertical : BOOLEAN]
+\* end-point arrays only make sense with scaling; different imbibition curves need a second region;
+\* vertical scaling (KRW / KRWR, KRO / KRORW, KRG / KRGR per cell) is modelled with three-point scaling and without hysteresis
+Valid(m) == /\ (m.arrays => m.scaling # "none") /\ (m.hyst = "other" => m.regions = 2)
+            /\ (m.vertical => m.arrays /\ m.scaling = "three" /\ m.hyst = "none")
 VARIABLE model
 MInit == model \in {m \in Models : Valid(m)}
 MNext == UNCHANGED model
@@ -44,4 +50,5 @@ RangeOk(e) == e.got >= -Tol /\ e.got <= e.max + Tol
 SameOk(e) == Abs(e.a - e.b) <= Tol
 EndPointOk(e) == Abs(e.got - e.exp) <= Tol
 ScanOk(e) == Abs(e.start - e.atrev) <= Tol /\ e.monotone = TRUE
+MonoOk(e) == e.worst <= Tol
 =============================================================================
